@@ -814,8 +814,12 @@ def gen_stack_spec(rng, U_f, U_owns):
     if r < 0.25:
         spec['fsig'] = 'hand'
     elif r < 0.4 and 'fform' not in spec and (named or first is not None):
-        spec['fsig'] = 'annotate'
-        spec['fsig_name'] = named[0] if named else first
+        # annotate(**annotations) cannot name a parameter spelled `self` (it collides with
+        # annotate.__init__'s own first parameter): such programs are not written
+        cand = named[0] if named else first
+        if name_of(cand) != 'self':
+            spec['fsig'] = 'annotate'
+            spec['fsig_name'] = cand
     return spec
 
 
